@@ -908,10 +908,14 @@ def stream_grid(ctx):
     grids = [([2], 1.0), ([3], 2.0), ([4], 0.5), ([5], 1.5), ([2, 2], 1.0), ([3, 3], 2.0), ([2, 3], 1.0), ([3, 2], 0.75),
              ([2, 2], [[1.3, 0.5], [0.0, 0.9]]), ([3, 2], [[1.0, 0.4], [0.2, 1.5]]), ([2, 3], [[0.8, -0.3], [0.5, 1.1]]),
              ([3], [[1.7]])]
-    if ctx.tier == 'thorough' or ctx.drift:
+    if ctx.tier == 'thorough':
         grids += [([6], 1.0), ([4, 4], 1.25), ([4, 3], 1.0), ([2, 2, 2], 1.0), ([3, 2, 2], 2.0), ([3, 3, 3], 1.5),
                   ([3, 3], [[1.2, 0.7], [-0.1, 0.9]]), ([2, 2, 2], [[1.0, 0.2, 0.1], [0.0, 1.1, 0.3], [0.4, 0.0, 0.9]]),
                   ([2, 2], [[0.0, 1.1], [0.7, 0.2]])]
+    elif ctx.drift:
+        # changed source: more grids, still within the quick time limit
+        grids += [([6], 1.0), ([2, 2, 2], 1.0), ([3, 3], [[1.2, 0.7], [-0.1, 0.9]]),
+                  ([2, 2, 2], [[1.0, 0.2, 0.1], [0.0, 1.1, 0.3], [0.4, 0.0, 0.9]]), ([2, 2], [[0.0, 1.1], [0.7, 0.2]])]
     for _ in range(budget(ctx.tier, 2, 8)):
         L = [rng.randint(2, 3), rng.randint(2, 3)]
         M = [[rng.randint(4, 12) / 8, rng.randint(-6, 6) / 8], [rng.randint(-6, 6) / 8, rng.randint(4, 12) / 8]]
